@@ -240,3 +240,65 @@ def run_capped(H, ls, max_crashes=3, what='the harness'):
         if crashes >= max_crashes:
             replies.extend(['SKIP'] * (len(ls) - len(replies))); break
     return replies[:len(ls)]
+
+
+def model_line(seq, irep):
+    """the request for the extracted model: the same operations with the implementation's observed growth behaviour as oracle
+    (F = allocation refused, otherwise the bucket count after the operation)"""
+    out = []
+    for tok, rep in zip(seq.ops, irep):
+        t = tok[0]
+        if t == 'i':
+            src, ref, a = tok[1:].split(',')
+            out.append('i%s,%s,%s' % (src, ref, 'F' if rep.startswith('F') else rep.split('/')[2]))
+        elif t == 'r':
+            c, a = tok[1:].split(',')
+            out.append('r%s,%s' % (c, 'F' if rep.startswith('F') else rep.split('/')[2]))
+        else:
+            out.append(tok)
+    return 'seq %s %s' % (seq.hm, ' '.join(out))
+
+
+def compare_reply(tok, a, b):
+    """model reply a vs implementation reply b on what the property speaks about. Returns (same, diagnostic)"""
+    t = tok[0]
+    if t in 'ir':
+        return a == '/'.join(b.split('/')[:2]), None          # [F]ret/count ; the bucket count is the oracle, not compared
+    if t in 'zc':
+        return a == '/'.join(b.split('/')[:2]), None
+    if t == 'd':
+        if a == b: return True, None
+        pa = sorted(e.split(':', 1)[1] for e in a[1:].split(';')) if a != 'D-' else []
+        pb = sorted(e.split(':', 1)[1] for e in b[1:].split(';')) if b != 'D-' else []
+        return pa == pb, 'layout'
+    return a == b, None
+
+
+def reference_policy_diff(seq, irep, consts):
+    """diagnostic: first operation where the observed bucket count differs from what the transcribed policy of refmap.c
+    (count >= buckets * n / 256 -> resize(2 * count); growth from the minimum size) would choose"""
+    n, mn = consts.get('RM_LOAD_N', 179), consts.get('RM_MIN_BUCKETS', 8)
+
+    def grow(c):
+        b = mn
+        while c >= b * n // 256: b *= 2
+        return b
+    cnt = bk = 0
+    for k, (tok, rep) in enumerate(zip(seq.ops, irep)):
+        t = tok[0]
+        if t in 'ir' and not rep.startswith('F'):
+            f = rep.split('/')
+            c2, b2 = int(f[1]), int(f[2])
+            if t == 'i':
+                src = int(tok[1:].split(',')[0])
+                want = bk if src == 0 else (grow(2 * cnt) if cnt >= bk * n // 256 else bk)
+            else:
+                want = grow(max(int(tok[1:].split(',')[0]), cnt))
+            if b2 != want:
+                return ('diagnostic only: the growth policy differs from the transcribed reference policy of refmap.c (Properties_C18p): operation %d `%s` of a %s sequence '
+                        'leaves %d buckets, the reference policy %d; the map theorems hold for every policy satisfying the side condition' % (k, tok, seq.klass, b2, want))
+            cnt, bk = c2, b2
+        elif t in 'zc':
+            f = rep.split('/')
+            cnt, bk = int(f[1]), int(f[2])
+    return None
